@@ -79,7 +79,10 @@ for tier, k in (("q", 3), ("t", 4)):
     # two blocks with equally named arrays / tags: a same-named entity of the OTHER block as link target
     cfg("c08e_" + tier, N2, k + 2, ["blocks", "arrays", "tags"], ["refs"], [], ["Create", "Link", "Links"], steps=k + 4, res="reject", emit=["AddLink", "RemoveLink", "SetLinks"])
     # creation with a target from a sibling block that has a namesake in the holder's block (multi-tag positions, feature data)
-    cfg("c08g_" + tier, N2, k + 2, ["blocks", "arrays", "mtags", "tags", "features"], [], [], ["Create", "CreateBad"], steps=k + 3, res="reject", emit=["CreateBad", "Create"])
+    if tier == "q":
+        cfg("c08g_q", N2, 4, ["blocks", "arrays", "mtags"], [], [], ["Create", "CreateBad"], steps=5, res="reject", emit=["CreateBad"])
+    else:
+        cfg("c08g_t", N2, 5, ["blocks", "arrays", "mtags", "tags", "features"], [], [], ["Create", "CreateBad"], steps=6, res="reject", emit=["CreateBad", "Create"])
     cfg("c08f_" + tier, N1, k + 1, ["blocks", "arrays", "mtags", "frames", "groups"], ["gmtags", "gframes"], [], ["Create", "Link", "Links", "Foreign"], steps=k + 3, res="reject")
     cfg("c08c_" + tier, N1, k, ["blocks", "sections", "props", "sources"], [], ["metadata", "link"], R, steps=k + 2, res="reject")
     # C02: reopen identity (every history, close + reopen in either mode; also flush / reopen inside)
